@@ -14,12 +14,13 @@ RULE = ("pairs of real wormholes through the real server (bridging server when a
         "the same text, one char changed, case changed, extra/missing word, compatibility forms NFC "
         "does not unify, different nameplate; entry by set_code, allocate+set, input_code with the "
         "words typed late (peer PAKE first); random delivery order; 0-3 messages each way; derive_key "
-        "sampled over random unicode purposes and lengths. Non-trivial = the two sides actually "
+        "sampled over random unicode purposes and lengths; in 40% of the cases a second, unrelated matching "
+        "pair runs in the same process and must end happy with its own key. Non-trivial = the two sides actually "
         "exchanged PAKE messages (or, for never-met, both closed Lonely); distinct = (class, entry "
         "mode, codes, appids).")
 ASSUMPTIONS = ["codes <= 60 chars, <= 6 words; BMP plus a few astral characters"]
-FLOORS = {"quick": {"match_cases": 100, "mismatch_cases": 150, "pake_before_code": 10, "derive_checks": 1000},
-          "thorough": {"match_cases": 4000, "mismatch_cases": 6000, "pake_before_code": 400, "derive_checks": 40000}}
+FLOORS = {"quick": {"match_cases": 100, "mismatch_cases": 150, "pake_before_code": 10, "derive_checks": 1000, "bystander_pairs": 100},
+          "thorough": {"match_cases": 4000, "mismatch_cases": 6000, "pake_before_code": 400, "derive_checks": 40000, "bystander_pairs": 4000}}
 CLASSES = ["same", "same", "nfc", "nfc", "onechar", "case", "extraword", "missingword", "compat",
            "nameplate", "appid", "appid+same-nfc"]
 WORDS = ["café", "naïve", "purple", "sausages", "한글", "éclair", "ångström", "ǆemal",
@@ -92,6 +93,17 @@ def run_case(spec):
            "versions_a": {"v": "A", "n": rng.randint(0, 9)}, "versions_b": {"v": "B"},
            "plan_a": make_plan(rng, "A", rng.randint(0, 3), 50), "plan_b": make_plan(rng, "B", rng.randint(0, 3), 50)}
     drv = TwoParty(world, cfg)
+    # a second, unrelated pair living in the same process (same reactor, same server): its session must be
+    # unaffected by, and must not affect, the pair under test
+    by = None
+    if spec.get("bystander", (spec["seed"] % 5) < 2):
+        by_np = str(int(code_a.split("-")[0]) + 1000)
+        cfg2 = {"a_code": "set", "b_code": "set", "code": by_np + "-by-stander", "appid_a": appid_a, "appid_b": appid_a,
+                "api_a": "deferred", "api_b": rng.choice(["deferred", "delegate"]),
+                "versions_a": {"v": "A2"}, "versions_b": {"v": "B2"},
+                "plan_a": make_plan(rng, "A2", rng.randint(1, 3), 50), "plan_b": make_plan(rng, "B2", rng.randint(1, 3), 50)}
+        by = TwoParty(world, cfg2)
+        by.a.name, by.b.name = "A2", "B2"
     nokey = []
     for app in (drv.a, drv.b):
         try:
@@ -115,9 +127,22 @@ def run_case(spec):
         drv.drain_actions = actions
     if rng.random() < 0.6:
         world.adversary = ReorderDup(world, p_dup=rng.choice([0.0, 0.2]))
-    sch = Scheduler(world, drv, strategy=rng.choice(STRATS), chunking="whole")
+
+    class Both:
+        def actions(self):
+            acts = list(drv.actions())
+            if by is not None:
+                acts += [((k[0], "2:" + str(k[1])) + tuple(k[2:]), f) for (k, f) in by.actions()]
+            return acts
+        drain_actions = actions
+    sch = Scheduler(world, Both(), strategy=rng.choice(STRATS), chunking="whole")
+
+    def by_done():
+        return by is None or (by.all_delivered() and "versions" in by.a.kinds() and "versions" in by.b.kinds())
 
     def settled():
+        if not by_done():
+            return False
         if expect_match:
             return drv.all_delivered() and "versions" in drv.a.kinds() and "versions" in drv.b.kinds()
         if met:
@@ -180,12 +205,27 @@ def run_case(spec):
                              "witness": wit()})
         if met and ka is not None and kb is not None and ka == kb:
             viol.append({"key": "C01/mismatch-same-key", "msg": "different codes/appids produced the same key", "witness": wit()})
+    if by is not None:
+        bw = {"A2": events_view(by.a), "B2": events_view(by.b), "A2_boss": by.a.binputs[:30], "B2_boss": by.b.binputs[:30],
+              "pair_under_test": {"class": kind, "A": drv.a.kinds(), "B": drv.b.kinds()}}
+        if not by_done() or by.a.first("verifier") != by.b.first("verifier") or by.a.first("key") != by.b.first("key"):
+            viol.append({"key": "C01/bystander-session-disturbed", "msg": "a second pair with equal codes in the same process: A2=%s B2=%s" % (by.a.kinds(), by.b.kinds()),
+                         "witness": bw})
+        elif ka is not None and by.a.first("key") == ka:
+            viol.append({"key": "C01/two-sessions-share-a-key", "msg": "", "witness": bw})
     if nokey != ["NoKeyError", "NoKeyError"]:
         viol.append({"key": "C01/derive_key-before-key/" + str(nokey), "msg": "derive_key before any key: %s" % nokey, "witness": wit()})
     drv.a.close()
     drv.b.close()
-    sch.drain(120.0, 5000, until=lambda: drv.a.closed and drv.b.closed)
+    if by is not None:
+        by.a.close()
+        by.b.close()
+    sch.drain(120.0, 5000, until=lambda: drv.a.closed and drv.b.closed and (by is None or (by.a.closed and by.b.closed)))
     world.finish()
+    if by is not None:
+        bv = (by.a.close_results[0] if by.a.closed else "never-closed", by.b.close_results[0] if by.b.closed else "never-closed")
+        if bv != ("happy", "happy") and not any(v["key"].startswith("C01/bystander") for v in viol):
+            viol.append({"key": "C01/bystander-session-disturbed", "msg": "bystander verdicts %s" % (bv,), "witness": bw})
     va = drv.a.close_results[0] if drv.a.closed else "never-closed"
     vb = drv.b.close_results[0] if drv.b.closed else "never-closed"
     if expect_match:
@@ -207,7 +247,7 @@ def run_case(spec):
     return {"violations": viol, "nontrivial": nontrivial,
             "counters": {"match_cases": int(expect_match), "mismatch_cases": int(not expect_match and met),
                          "never_met_cases": int(not met), "pake_before_code": s01, "derive_checks": derive_checks,
-                         "class_" + kind: 1},
+                         "class_" + kind: 1, "bystander_pairs": int(by is not None)},
             "sample": {"spec": spec, "code_a": code_a, "code_b": code_b, "appid_a": appid_a, "appid_b": appid_b,
                        "expect_match": expect_match, "b_mode": b_mode, "late_words": late_words,
                        "verdicts": [va, vb], "A": drv.a.kinds(), "B": drv.b.kinds(),
